@@ -61,6 +61,14 @@ def classify(o, src=""):
         return "KF-C02-backslash-only-line"
     if cls == "SyntaxError" and (msg or "").startswith("f-string:"):
         return "KF-C02-fstring-diagnostics"
+    if cls == "SyntaxError" and ((msg or "").startswith("invalid non-printable character") or re.search(r"\r(?!\n)", src)):
+        return "KF-C02-stray-cr-or-nonprintable-blank"
+    if cls == "SyntaxError" and (msg or "").startswith("unterminated f-string literal") and re.search(r"\\\r?\n", src):
+        return "KF-C02-continued-fstring-runaway"
+    if cls == "SyntaxError" and (msg or "").startswith("(unicode error)") and re.search(r"(?i)\b[rb]*f[rb]*['\"]", src):
+        return "KF-C02-fstring-escapes-not-decoded"
+    if cls == "IndentationError" and (msg or "") == "too many levels of indentation":
+        return "KF-C02-indentation-depth"
     if cls == "TabError":
         return "KF-C02-tab-consistency"
     if cls == "SyntaxError" and re.fullmatch(r"invalid (decimal|hexadecimal|octal|binary|imaginary) literal", msg or ""):
@@ -163,6 +171,11 @@ def build_inputs(tier):
     # an indented line; f-strings CPython refuses with its own "f-string: ..." diagnostics
     for s in ["\\\n  x = 1\n", "x = 1\n\\\n  y = 2\n", "if x:\n  pass\n\\\n    pass\n", "if x:\n    pass\n  \\\n      pass\n", "\\\nx = 1\n", "x = 1\n\\\n\ny = 2\n",
               "f'a}'\n", "f'{a}}'\n", "f'{{a}'\n", "f'}'\n", "f'{a:}}'\n", "f'{a:{b:{c:{d}}}}'\n", "x = f'{a'\n", "f'{}'\n", "f'{a b}'\n", "f'{a:{}}'\n", "f'{=}'\n", "f'{a!}'\n".replace("!", ""), "f'{a!x}'\n".replace("!", "")]:
+        cases.append(("kf-neighbourhood", s))
+    # round 8 (clean-tree observations of the C02 agent): stray CR / non-printable blanks are dropped as whitespace; a single-quoted
+    # f-string continued once by a backslash keeps swallowing lines; escapes in f-string literal text are never decoded; no depth limit
+    for s in ["x = 1 +\r2\n", "x = 1\n \r)))\n", "x =\xa01\n", "x = 1\x0b\n", "x = (1,\u2003 2)\n", "x = f'abc\\\ndef\nghi'\n", "f'abc\\\ndef'\n",
+              "f'\\xz'\n", "f'\\N{foo}'\n", "x = f'\\u12'\n", "if x:\n" + "".join(" " * (i + 1) + "if x:\n" for i in range(1, 102)) + " " * 103 + "pass\n"]:
         cases.append(("kf-neighbourhood", s))
     for p in progs[: (60 if tier == "quick" else 3000)] + nested:
         lines = p.split("\n")
